@@ -51,6 +51,24 @@ CLAIMED.update({
              technique='Coq proof (corollary of the C01/C02 field theorems + computation over Spec.v/Views.v); cross-view differential runs',
              ref='DESIGN.md section 4 C17'),
 })
+CLAIMED.update({
+ 'C11': dict(text='Theorems C11_null_reads/_writes/_inits: for EVERY recognised getter, setter and initialiser of every unit and every value of the other '
+                  'parameters a null pdu gives 0 / no effect. C11_unknown_field: for all 23 formats and every 32-bit identifier f >= MAX (so 256+k too) the '
+                  'by-identifier reader returns 0 and the writer leaves any pdu unchanged. C11_legacy: each of the 14 deprecated entry points returns -EINVAL '
+                  'exactly for null pdu / null result pointer / field >= MAX with pdu and result location untouched, and 0 otherwise. Records (guards, casts, '
+                  'parameter widths) regenerated from the clang AST each run.',
+             note=FIELD_NOTE + ' Scope: field accessors, initialisers and deprecated entry points, as the property quantifies; the model of a wrapper is the list of '
+                  'its atomic guards and success-path statements recognised by the translator (an unrecognised shape breaks the proof).',
+             technique='Coq proof (boolean recognisers with soundness lemmas, evaluated by vm_compute on regenerated records); differential tie + rule-based search',
+             ref='DESIGN.md section 4 C11'),
+ 'C12': dict(text='Theorem C12_api: for the five formats with a deprecated API, legacy get stores exactly the value the current by-identifier reader returns, legacy '
+                  'set is the current writer behind its argument check (every value of its type), legacy init equals the current initialiser (CVF: plus format_subtype; '
+                  'AAF-PCM: memset + legacy-set chain proved to yield the canonical header for every prior buffer); every legacy field name has the value of the current '
+                  'enumerator; C12_layout: packed legacy structs have the size of the current header types, payload member at the same offset (compiled probes).',
+             note=FIELD_NOTE + ' LegacySpec.v (which alias names which field, which struct overlays which header) is hand-written.',
+             technique='Coq proof over regenerated wrapper records, macro values and struct probes; paired legacy/current differential runs',
+             ref='DESIGN.md section 4 C12'),
+})
 ALL = ['C%02d' % i for i in range(1, 21)]
 def main():
     checks = []
